@@ -1261,6 +1261,9 @@ where
                 Ordering::SeqCst,
             );
             if sc >= 0
+                // `sc` may belong to a later resize than the one `table` is part of: the checks
+                // above ran before `sc` was read, and a whole resize can complete in between
+                || (sc >> RESIZE_STAMP_SHIFT) != (rs >> RESIZE_STAMP_SHIFT)
                 || sc == rs + MAX_RESIZERS
                 || sc == rs + 1
                 || self.transfer_index.load(Ordering::SeqCst) <= 0
